@@ -95,7 +95,7 @@ def compare(case, o, m):
     if 'ok' in o2 and 'ok' in m and 'sample_err' in m['ok']:
         # the model refuses to sample (division by zero at a sampled wavelength): implementation yields inf/nan
         return None
-    if o2.get('err') in ('PartialOverlap', 'DisjointError') and 'observation' in json.dumps(case['expr']):
+    if o2.get('err') in ('PartialOverlap', 'DisjointError', 'ZeroWavelength') and 'observation' in json.dumps(case['expr']):
         return None     # admission of the rebuilt observation is C06's subject, not modelled here
     # absolute floor: cancellation between operands of very different size is legitimate rounding
     mags = [abs(x) for x in (o2.get('ok', {}).get('vals') or []) if isinstance(x, float)]
@@ -179,8 +179,8 @@ def oracle(rep, case, out):
     if 'err' in out:
         if out['err'] == 'NaN':
             return      # a sampled division by zero, not a typing matter
-        if out['err'] in ('PartialOverlap', 'DisjointError') and '"observation"' in json.dumps(case['expr']):
-            return      # the rebuilt observation is subject to the admission rules of C06
+        if out['err'] in ('PartialOverlap', 'DisjointError', 'ZeroWavelength') and '"observation"' in json.dumps(case['expr']):
+            return      # the (re)built observation is subject to the admission rules of C06 / the sampling-set rule of C13
         rep.oracle_fail('typing:listed_raises:%s:%s' % (sig_cls, out['err']),
                         'documented combination raised %s: %s' % (out['err'], out.get('msg', '')), case, out)
         return
@@ -215,6 +215,7 @@ def operand_pool(rng):
     src_ana = {'prim': 'source', 'leaf': {'leaf': 'constflux', 'amp': '3/2', 'unit_name': 'flam'}}
     src_z = {'prim': 'source', 'leaf': O.gen_table_leaf(rng), 'z': '1/2'}
     src_zc = {'prim': 'source', 'leaf': O.gen_table_leaf(rng), 'z': '1', 'ztype': 'conserve_flux'}
+    src_zc2 = {'prim': 'source', 'leaf': O.gen_table_leaf(rng), 'z': '1/2', 'ztype': 'conserve_flux'}
     src_comp = {'op': 'add', 'l': {'prim': 'source', 'leaf': O.gen_table_leaf(rng)}, 'r': dict(src_ana)}
     bp_box = {'prim': 'bandpass', 'leaf': {'leaf': 'box', 'amp': '1/2', 'x0': '5000', 'width': '1000', 'step': '125/2'}}
     bp_emp = {'prim': 'bandpass', 'leaf': O.gen_table_leaf(rng, nonneg=True, keep_neg=True)}
@@ -224,7 +225,7 @@ def operand_pool(rng):
     ul = {'op': 'div', 'l': dict(src_ana), 'r': {'prim': 'source', 'leaf': {'leaf': 'constflux', 'amp': '2', 'unit_name': 'photlam'}}}
     obs = {'prim': 'observation', 'src': dict(src_ana), 'band': dict(bp_box),
            'binset': qs([F(4400) + 50 * i for i in range(25)])}
-    specs = [src_emp, src_ana, src_z, src_zc, src_comp, bp_box, bp_emp, red, ext, th, ul, obs]
+    specs = [src_emp, src_ana, src_z, src_zc, src_zc2, src_comp, bp_box, bp_emp, red, ext, th, ul, obs]
     scalars = [{'scalar': c, 'v': v} for c, v in (('int', '2'), ('float', '3/2'), ('npfloat', '5/4'), ('npint', '3'),
                                                  ('bool', '1'), ('quantity', '3/2'))]
     scalars += [{'scalar': c} for c in O.INVALID_SCALARS]
@@ -244,7 +245,14 @@ def gen_tree(rng, depth, want='source'):
     r = rng.random()
     if want == 'source':
         if r < 0.3:
-            return {'op': rng.choice(['add', 'sub']), 'l': gen_tree(rng, depth - 1, 'source'), 'r': gen_tree(rng, depth - 1, 'source')}
+            e = {'op': rng.choice(['add', 'sub']), 'l': gen_tree(rng, depth - 1, 'source'), 'r': gen_tree(rng, depth - 1, 'source')}
+            if 'prim' in e['l'] and 'prim' in e['r'] and rng.random() < 0.5:
+                # two operands at the same non-zero redshift, redshift types drawn independently
+                z = rng.choice(['1/2', '1', '3', '1/8'])
+                for side in ('l', 'r'):
+                    e[side]['z'] = z
+                    e[side]['ztype'] = rng.choice(['wavelength_only', 'conserve_flux'])
+            return e
         if r < 0.6:
             return {'op': rng.choice(['mul', 'div']), 'l': gen_tree(rng, depth - 1, 'source'), 'r': gen_tree(rng, depth - 1, 'unitless')}
         if r < 0.85:
@@ -306,7 +314,7 @@ def run(rep):
     thorough = rep.tier == 'thorough'
     rng = rep.rng('c02')
     K = O.consts()
-    cases = []
+    cases = [dict(c, const=K) for c in core.load_corpus('C02')]
     specs, scalars = operand_pool(rng)
     import copy
     for l in specs:
@@ -322,7 +330,7 @@ def run(rep):
         cases.append(mk_case(rng, gen_tree(rng, rng.randint(1, depth), rng.choice(['source', 'source', 'unitless', 'observation'])), K,
                              n=32 if thorough else 8))
     rep.extra['matrix_cases'] = nmatrix
-    rep.rule = ('exhaustive matrix: 12 spectrum operands (empirical / analytic / redshifted / flux-conserving redshifted / composite '
+    rep.rule = ('exhaustive matrix: 13 spectrum operands (empirical / analytic / redshifted / flux-conserving redshifted (two redshifts, one shared with the wavelength-only operand) / composite '
                 'source; box and empirical bandpass; reddening law; extinction curve; thermal element; unitless ratio; observation) '
                 'x (those + int, float, NumPy float/int, bool, dimensionless Quantity + 9 invalid operand classes) x 4 operators, '
                 'plus plain numbers on the left of x; then random expression trees (rooted in a source, a unitless spectrum or an observation) of depth <= 4 (6), 8% ill-typed on purpose, '
